@@ -457,7 +457,7 @@ pub fn worker_main(prop: &dyn Property, tier: Tier, seed: u64, k: u64, n: u64, o
         "discards": st.discards,
         "labels": st.labels,
         "known_hits": st.known_hits,
-        "nontrivial": st.nontrivial.iter().map(|x| format!("{:016x}", x)).collect::<Vec<_>>(),
+        "nontrivial_count": st.nontrivial.len(),
         "samples": st.samples,
         "wall_s": start.elapsed().as_secs_f64(),
         "failure": failure.as_ref().map(|(b, f)| json!({
@@ -466,6 +466,12 @@ pub fn worker_main(prop: &dyn Property, tier: Tier, seed: u64, k: u64, n: u64, o
             "decoded": trim_sample(prop.describe(b)),
         })),
     });
+    // the fingerprints of the non-trivial cases go to a binary side file (a long run has millions)
+    let mut raw = Vec::with_capacity(st.nontrivial.len() * 8);
+    for x in &st.nontrivial {
+        raw.extend_from_slice(&x.to_le_bytes());
+    }
+    std::fs::write(out.with_extension("fp"), raw).expect("write worker fingerprints");
     std::fs::write(out, serde_json::to_vec(&res).unwrap()).expect("write worker result");
 }
 
@@ -778,7 +784,7 @@ pub fn parent_main(prop: &dyn Property, tier: Tier) -> i32 {
     let mut execs = 0u64;
     let mut discards: BTreeMap<String, u64> = BTreeMap::new();
     let mut labels: BTreeMap<String, u64> = BTreeMap::new();
-    let mut nontrivial: BTreeSet<String> = BTreeSet::new();
+    let mut nontrivial: Vec<u64> = vec![];
     let mut samples: Vec<J> = vec![];
     let mut shrunk_kinds: BTreeSet<String> = BTreeSet::new();
     for w in ws.iter() {
@@ -859,12 +865,8 @@ pub fn parent_main(prop: &dyn Property, tier: Tier) -> i32 {
                 }
             }
         }
-        if let Some(a) = j["nontrivial"].as_array() {
-            for x in a {
-                if let Some(s) = x.as_str() {
-                    nontrivial.insert(s.to_string());
-                }
-            }
+        if let Ok(raw) = std::fs::read(w.out.with_extension("fp")) {
+            nontrivial.extend(raw.chunks_exact(8).map(|c| u64::from_le_bytes(c.try_into().unwrap())));
         }
         if let Some(a) = j["samples"].as_array() {
             for x in a {
@@ -899,6 +901,9 @@ pub fn parent_main(prop: &dyn Property, tier: Tier) -> i32 {
             execs += r.execs;
         }
     }
+
+    nontrivial.sort_unstable();
+    nontrivial.dedup();
 
     // label floors
     for (l, floor) in prop.label_floors() {
